@@ -90,6 +90,23 @@ func runHarness(prog *Program, spec HarnessSpec, tier int, seed int64, workers i
 	ex.Run()
 	res := &HarnessResult{Spec: spec, Stats: ex.stats, Solver: ex.solver, Samples: ex.samples, Notes: ex.notes, Opaque: ex.opaque,
 		WallS: time.Since(t0).Seconds(), AssertQ: ex.assertQueries, AssertUnsat: ex.assertUnsat}
+	if trace {
+		type kv struct {
+			k string
+			v int
+		}
+		var kvs []kv
+		for k, v := range ex.forkSites {
+			kvs = append(kvs, kv{k, v})
+		}
+		sort.Slice(kvs, func(i, j int) bool { return kvs[i].v > kvs[j].v })
+		for i, e := range kvs {
+			if i >= 25 {
+				break
+			}
+			fmt.Fprintf(os.Stderr, "  fork site %8d %s\n", e.v, e.k)
+		}
+	}
 	for _, sig := range ex.vioOrder {
 		res.Violations = append(res.Violations, ex.violations[sig]...)
 	}
